@@ -13,73 +13,79 @@ variable {α : Type}
 def RSmall (c : Nat) (x : Small α) (l : List α) : Prop :=
   if x.tagS then RSVec c x.st l else RVec x.dy l
 
-/-- sized construction only below DIM (static, value-initialised), `resize` only down to at most the current size,
-    no `push_back(x[i])` -/
+/-- every operation of the alphabet; `push_back(x[i])` is not part of it for this kind -/
 def smallOk (c : Nat) : Option (List α) → Op α → Prop
-  | _, .ctorN _ n => n < c
-  | some l, .resize _ n => n ≤ l.length
   | _, .pushAt _ _ => False
   | _, _ => True
 
 namespace Small
 
-theorem rawAssign_spec (o : Vec α) (L : Ledger) (ho : o.Inv) :
-    (Vec.assign rawVec o L).1.Inv ∧ (Vec.assign rawVec o L).1.view = o.view := by
-  have h1 : (Vec.resize (rawVec (α := α)) o.size L).1.Inv := by
+theorem rawAssign_spec (zero : α) (o : Vec α) (L : Ledger) (ho : o.Inv) :
+    (Vec.assign zero rawVec o L).1.Inv ∧ (Vec.assign zero rawVec o L).1.view = o.view := by
+  have h1 : (Vec.resize zero (rawVec (α := α)) o.size L).1.Inv := by
     simp only [Vec.resize, rawVec, Ledger.alloc]
     exact ⟨by simp, by simp, by simp⟩
-  have h2 : (Vec.resize (rawVec (α := α)) o.size L).1.size = o.size := by simp [Vec.resize, rawVec]
+  have h2 : (Vec.resize zero (rawVec (α := α)) o.size L).1.size = o.size := by simp [Vec.resize, rawVec]
   exact ⟨Vec.copyFrom_inv _ o _ h1 ho h2, Vec.copyFrom_view _ o _ ho h2⟩
 
-/-- `small_vector(n)` for `n ≥ DIM`: a heap vector of `n` indeterminate cells -/
+/-- `small_vector(n)` for `n ≥ DIM`: a heap vector of `n` value-initialised elements -/
 theorem mkSized_dyn (c : Nat) (zero : α) (n : Nat) (L : Ledger) (hn : ¬ n < c) :
     (mkSized c zero n L).1.tagS = false ∧ (mkSized c zero n L).1.dy.Inv ∧
-    (mkSized c zero n L).1.dy.cells = List.replicate n none ∧ (mkSized c zero n L).1.dy.size = n := by
+    (mkSized c zero n L).1.dy.view = List.replicate n (some zero) := by
   simp only [mkSized, hn, if_false]
   have hd := Vec.mkDefault_inv (α := α) L
-  have ha := rawAssign_spec (Vec.mkDefault (α := α) L).1 ((Vec.mkDefault (α := α) L).2.flag .uninitAssign) hd
-  have hcells : (Vec.assign rawVec (Vec.mkDefault (α := α) L).1 ((Vec.mkDefault (α := α) L).2.flag .uninitAssign)).1.cells = [] := by
-    simp [Vec.assign, Vec.resize, rawVec, Vec.copyFrom, Vec.mkDefault]
-  have hsz : (Vec.assign rawVec (Vec.mkDefault (α := α) L).1 ((Vec.mkDefault (α := α) L).2.flag .uninitAssign)).1.size = 0 := by
-    simp [Vec.assign, Vec.resize, rawVec, Vec.copyFrom, Vec.mkDefault]
-  have hcap : (Vec.assign rawVec (Vec.mkDefault (α := α) L).1 ((Vec.mkDefault (α := α) L).2.flag .uninitAssign)).1.cap = 0 := by
-    simp [Vec.assign, Vec.resize, rawVec, Vec.copyFrom, Vec.mkDefault]
-  generalize (Vec.assign rawVec (Vec.mkDefault (α := α) L).1 ((Vec.mkDefault (α := α) L).2.flag .uninitAssign)) = r at ha hcells hsz hcap
+  have ha := rawAssign_spec zero (Vec.mkDefault (α := α) L).1 ((Vec.mkDefault (α := α) L).2.flag .uninitAssign) hd
+  have hv : (Vec.mkDefault (α := α) L).1.view = [] := by simp [Vec.mkDefault, Vec.view]
+  rw [hv] at ha
+  generalize (Vec.assign zero rawVec (Vec.mkDefault (α := α) L).1 ((Vec.mkDefault (α := α) L).2.flag .uninitAssign)) = r at ha
   generalize Vec.destroy (Vec.mkDefault (α := α) L).1 r.2 = L3
-  refine ⟨trivial, Vec.resize_inv _ n L3 ha.1, ?_, Vec.resize_size _ n L3 ha.1⟩
-  obtain ⟨p, hp⟩ := Option.isSome_iff_exists.mp ha.1.blk
-  unfold Vec.resize
-  simp only [hp, hcap, hcells, hsz]
-  by_cases h0 : 0 < n
-  · simp [h0]
-  · have : n = 0 := by omega
-    subst this; simp
+  have hsz : r.1.size = 0 := by
+    have := Vec.view_length _ ha.1; rw [ha.2] at this; simpa using this.symm
+  refine ⟨trivial, Vec.resize_inv zero _ n L3 ha.1, ?_⟩
+  rw [Vec.resize_view zero _ n L3 ha.1, ha.2, hsz]
+  by_cases h0 : n = 0
+  · subst h0; simp
+  · have : ¬ n ≤ 0 := by omega
+    simp [this]
 
-/-- static → dynamic `resize(n)`, `n > DIM`: the old elements followed by indeterminate cells -/
+/-- static → dynamic `resize(n)`, `n > DIM`: the old elements followed by value-initialised ones -/
 theorem resize_grow_dyn (c : Nat) (zero : α) (x : Small α) (n : Nat) (L : Ledger) (ht : x.tagS = true)
     (hlen : x.st.cells.length = c) (hsz : x.st.size ≤ c) (hn : c < n) :
     (resize c zero x n L).1.tagS = false ∧ (resize c zero x n L).1.dy.Inv ∧
-    (resize c zero x n L).1.dy.view = x.st.view ++ List.replicate (n - x.st.size) none := by
+    (resize c zero x n L).1.dy.view = x.st.view ++ List.replicate (n - x.st.size) (some zero) := by
   have hnc : ¬ n ≤ c := by omega
   have hnc' : ¬ n < c := by omega
-  obtain ⟨_, hinv, hcells, hsize⟩ := mkSized_dyn c zero n L hnc'
+  obtain ⟨_, hinv, hview⟩ := mkSized_dyn c zero n L hnc'
   simp only [resize, ht, if_true, hnc, if_false]
-  generalize mkSized c zero n L = nb at hinv hcells hsize
+  generalize mkSized c zero n L = nb at hinv hview
+  have hsize : nb.1.dy.size = n := by
+    have := Vec.view_length _ hinv; rw [hview] at this; simpa using this.symm
+  have hl := hinv.len; have hle := hinv.le
   -- the block the temporary owns, with the copied prefix
   have hnbinv : ({ nb.1.dy with cells := x.st.cells.take x.st.size ++ nb.1.dy.cells.drop x.st.size } : Vec α).Inv := by
     refine ⟨hinv.blk, ?_, hinv.le⟩
-    have := hinv.len
-    simp [List.length_take, hcells] at *
+    simp [List.length_take]
     omega
   generalize hL2 : nb.2.flagIf (decide (x.st.cells.length < x.st.size ∨ nb.1.dy.cells.length < x.st.size)) Event.oob = L2
   have hv0 := Vec.mkDefault_inv (α := α) L2
-  have ha := Vec.assign_spec (Vec.mkDefault (α := α) L2).1 _ (Vec.mkDefault (α := α) L2).2 hv0 hnbinv
+  have ha := Vec.assign_spec zero (Vec.mkDefault (α := α) L2).1 _ (Vec.mkDefault (α := α) L2).2 hv0 hnbinv
   refine ⟨trivial, ha.1, ?_⟩
   rw [ha.2]
-  simp only [Vec.view, hsize, hcells, SVec.view]
+  -- view of the patched temporary: prefix from the static part, the rest from the temporary's (zero) cells
+  have hdrop : (nb.1.dy.cells.drop x.st.size).take (n - x.st.size) = List.replicate (n - x.st.size) (some zero) := by
+    have hv : nb.1.dy.cells.take n = List.replicate n (some zero) := by
+      have := hview; simp only [Vec.view, hsize] at this; exact this
+    have : (nb.1.dy.cells.take n).drop x.st.size = List.replicate (n - x.st.size) (some zero) := by
+      rw [hv]; simp
+    rw [← this, List.drop_take]
+  simp only [Vec.view, hsize, SVec.view]
+  rw [List.take_append]
+  simp only [List.length_take]
+  have e1 : min x.st.size x.st.cells.length = x.st.size := by omega
+  rw [e1, hdrop]
+  congr 1
   rw [List.take_of_length_le]
-  · simp
-  · simp [List.length_take]; omega
+  simp [List.length_take]; omega
 
 theorem view_dyn (x : Small α) (ht : x.tagS = false) : x.view = x.dy.view := by simp [view, ht]
 theorem view_st (x : Small α) (ht : x.tagS = true) : x.view = x.st.view := by simp [view, ht]
@@ -134,13 +140,15 @@ theorem mkVariadic_spec (c : Nat) (zero : α) (vs : List α) (L : Ledger) :
   simp only []
   by_cases hn : vs.length ≤ c
   · -- stays static
+    obtain ⟨hrs, hl, _⟩ := svec_resize_spec c zero (freshSt c zero) vs.length L (by simp [freshSt]) (by simp [freshSt]) hn
     have hr : resize c zero (mkDefault c zero L).1 vs.length (mkDefault c zero L).2 =
-        ({ (mkDefault c zero L).1 with st := { (freshSt c zero) with size := vs.length } }, L) := by
-      simp [resize, mkDefault, SVec.resize, hn, freshSt]
-    rw [hr, storeAll_st _ (by simp [mkDefault]) 0 vs L (by simp [mkDefault, freshSt]; exact hn)]
+        ({ (mkDefault c zero L).1 with st := { cells := initRange zero (freshSt c zero).cells 0 vs.length, size := vs.length } }, L) := by
+      simp only [resize, mkDefault, if_true, hn, hrs]; simp [freshSt]
+    have hl' : (initRange zero (freshSt c zero).cells 0 vs.length).length = c := by simpa [freshSt] using hl
+    rw [hr, storeAll_st _ (by simp [mkDefault]) 0 vs L (by simp only [mkDefault]; omega)]
     simp only [RSmall, mkDefault, if_true]
     refine ⟨?_, hn, ?_⟩
-    · simp [freshSt, List.length_take]; omega
+    · simp [List.length_take]; omega
     · simp only [SVec.view, List.take_zero, List.nil_append, Nat.zero_add]
       rw [List.take_left']; simp
   · have hc : c < vs.length := by omega
@@ -176,27 +184,27 @@ theorem rsmall_dy {c : Nat} {x : Small α} {l : List α} (ht : x.tagS = false) :
 theorem rsvec_fresh (c : Nat) (zero : α) : RSVec c (Small.freshSt c zero) ([] : List α) :=
   ⟨by simp [Small.freshSt], by simp [Small.freshSt], by simp [Small.freshSt, SVec.view]⟩
 
-theorem Vec.push_eq_resize_store (v : Vec α) (a : α) (L : Ledger) (h : v.Inv) :
-    Vec.push v a L = (let r := v.resize (v.size + 1) L; r.1.store (r.1.size - 1) (some a) r.2) := by
-  obtain ⟨p, hp⟩ := Option.isSome_iff_exists.mp h.blk
-  unfold Vec.push
-  by_cases hc : v.cap < v.size + 1
-  · simp only [hc, if_true]
-  · simp only [hc, if_false, Vec.resize, hp]
-
 theorem small_sim (c : Nat) (zero : α) : Sim (smallImpl c zero) (stdSpec zero) (RSmall c) (smallOk c) where
   size_eq := fun x y h => h.size_eq
   mkDefault := fun s L M _ => by
     show RSmall c (Small.mkDefault c zero L).1 []
     simpa [RSmall, Small.mkDefault] using rsvec_fresh c zero
-  mkSized := fun s n L M hok => by
-    simp only [smallOk] at hok
-    have hle : n ≤ c := by omega
+  mkSized := fun s n L M _ => by
     show RSmall c (Small.mkSized c zero n L).1 (List.replicate n zero)
-    simp only [Small.mkSized, hok, if_true, RSmall]
-    simp only [SVec.assign, SVec.resize, Small.freshSt, Nat.zero_le, if_true, SVec.copyFrom, List.take_zero,
-      List.drop_zero, List.nil_append, hle]
-    exact ⟨by simp, hle, by simp [SVec.view, List.take_replicate, Nat.min_eq_left hle]⟩
+    by_cases hn : n < c
+    · have hle : n ≤ c := by omega
+      simp only [Small.mkSized, hn, if_true, RSmall]
+      have h0 := (svec_sim c zero).assign s s _ _ _ _ L M trivial (rsvec_fresh c zero) (rsvec_fresh c zero)
+      have h1 := (svec_sim c zero).resize s n _ _ (SVec.assign c zero (Small.freshSt c zero) (Small.freshSt c zero) L).2 M trivial h0
+      have e : listResize zero ([] : List α) n = List.replicate n zero := by
+        by_cases h0 : n = 0
+        · subst h0; simp [listResize]
+        · have : ¬ n ≤ 0 := by omega
+          simp [listResize, this]
+      simpa [boundedSpec, svecImpl, hle, e] using h1
+    · obtain ⟨htag, hinv, hview⟩ := Small.mkSized_dyn c zero n L hn
+      simp only [RSmall, htag, Bool.false_eq_true, if_false]
+      exact ⟨hinv, by rw [hview]; simp⟩
   mkVariadic := fun s vs L M _ => Small.mkVariadic_spec c zero vs L
   mkCopy := fun d s x y L M _ h => by
     show RSmall c (Small.mkCopy c zero x L).1 y
@@ -207,27 +215,23 @@ theorem small_sim (c : Nat) (zero : α) : Sim (smallImpl c zero) (stdSpec zero) 
     | false =>
       have hx := (rsmall_dy ht).mp h
       simp only [Small.mkCopy, ht, Bool.false_eq_true, if_false, RSmall]
-      have := Small.rawAssign_spec x.dy (L.flag .uninitAssign) hx.1
+      have := Small.rawAssign_spec zero x.dy (L.flag .uninitAssign) hx.1
       exact ⟨this.1, by rw [this.2]; exact hx.2⟩
   assign := fun d s x y x' y' L M _ h h' => by
     show RSmall c (Small.assign c zero x x' L).1 y'
     cases ht : x.tagS <;> cases ht' : x'.tagS
-    · -- both dynamic
-      simp only [Small.assign, ht, ht', bne_self_eq_false, Bool.false_eq_true, if_false, RSmall]
+    · simp only [Small.assign, ht, ht', bne_self_eq_false, Bool.false_eq_true, if_false, RSmall]
       exact (vec_sim zero).assign d s _ _ _ _ L M trivial ((rsmall_dy ht).mp h) ((rsmall_dy ht').mp h')
-    · -- dynamic := static
-      simp only [Small.assign, ht, ht', Bool.bne_true, Bool.not_false, if_true, RSmall]
+    · simp only [Small.assign, ht, ht', Bool.bne_true, Bool.not_false, if_true, RSmall]
       exact (svec_sim c zero).assign d s _ _ _ _ _ M trivial (rsvec_fresh c zero) ((rsmall_st ht').mp h')
-    · -- static := dynamic
-      have hx' := (rsmall_dy ht').mp h'
+    · have hx' := (rsmall_dy ht').mp h'
       simp only [Small.assign, ht, ht', Bool.bne_false, if_true, Bool.false_eq_true, if_false, RSmall]
-      have := Vec.assign_spec (Vec.mkDefault (α := α) L).1 x'.dy (Vec.mkDefault (α := α) L).2 (Vec.mkDefault_inv L) hx'.1
+      have := Vec.assign_spec zero (Vec.mkDefault (α := α) L).1 x'.dy (Vec.mkDefault (α := α) L).2 (Vec.mkDefault_inv L) hx'.1
       exact ⟨this.1, by rw [this.2]; exact hx'.2⟩
-    · -- both static
-      simp only [Small.assign, ht, ht', bne_self_eq_false, Bool.false_eq_true, if_false, if_true, RSmall]
+    · simp only [Small.assign, ht, ht', bne_self_eq_false, Bool.false_eq_true, if_false, if_true, RSmall]
       exact (svec_sim c zero).assign d s _ _ _ _ L M trivial ((rsmall_st ht).mp h) ((rsmall_st ht').mp h')
   assignSelf := fun d x y L M _ h => by
-    show RSmall c (Small.assignSelf c x L).1 y
+    show RSmall c (Small.assignSelf c zero x L).1 y
     cases ht : x.tagS with
     | true =>
       simp only [Small.assignSelf, ht, if_true, RSmall]
@@ -243,8 +247,7 @@ theorem small_sim (c : Nat) (zero : α) : Sim (smallImpl c zero) (stdSpec zero) 
       have hx := (rsmall_st ht).mp h
       have hxs : x.size = x.st.size := by simp [Small.size, ht]
       by_cases hc : x.size = c
-      · -- static and full: switch to the heap
-        simp only [Small.push, hc, if_true]
+      · simp only [Small.push, hc, if_true]
         obtain ⟨htag, hinv, hview⟩ := Small.resize_grow_dyn c zero x (c + 1) L ht hx.len hx.le (by omega)
         generalize Small.resize c zero x (c + 1) L = r at htag hinv hview
         have hrs : r.1.dy.size = c + 1 := by
@@ -268,34 +271,41 @@ theorem small_sim (c : Nat) (zero : α) : Sim (smallImpl c zero) (stdSpec zero) 
     | false =>
       have hx := (rsmall_dy ht).mp h
       have hxs : x.size = x.dy.size := by simp [Small.size, ht]
-      have hp := (vec_sim zero).push s a _ _ L M trivial hx
       by_cases hc : x.size = c
       · simp only [Small.push, hc, if_true, Small.resize, ht, Bool.false_eq_true, if_false, Small.write, RSmall]
-        have he := Vec.push_eq_resize_store x.dy a L hx.1
-        have hrs := Vec.resize_size x.dy (c + 1) L hx.1
+        have hri := Vec.resize_inv zero x.dy (c + 1) L hx.1
+        have hrs := Vec.resize_size zero x.dy (c + 1) L hx.1
+        have hrv := Vec.resize_view zero x.dy (c + 1) L hx.1
         have hcs : x.dy.size = c := by omega
-        simp only [hcs] at he
-        simp only [hrs, Nat.add_sub_cancel] at he
-        have hw : Vec.write (x.dy.resize (c + 1) L).1 c a (x.dy.resize (c + 1) L).2 = Vec.push x.dy a L := by
-          rw [he]; rfl
-        rw [hw]
-        exact hp
+        have hnle : ¬ c + 1 ≤ c := by omega
+        simp only [hcs, hnle, if_false, Nat.add_sub_cancel_left, List.replicate_one] at hrv
+        have hw := Vec.write_spec (x.dy.resize zero (c + 1) L).1 c a (x.dy.resize zero (c + 1) L).2 hri (by omega)
+        refine ⟨hw.1, ?_⟩
+        rw [hw.2, hrv, hx.2]
+        have hyl : y.length = c := by omega
+        rw [List.set_append_right _ _ (by simp [hyl])]
+        simp [hyl]
       · simp only [Small.push, hc, if_false, ht, Bool.false_eq_true, RSmall]
-        exact hp
+        exact (vec_sim zero).push s a _ _ L M trivial hx
   pushAt := fun s i x y L M hok _ _ => by simp [smallOk] at hok
-  resize := fun s n x y L M hok h => by
-    simp only [smallOk] at hok
+  resize := fun s n x y L M _ h => by
     show RSmall c (Small.resize c zero x n L).1 (listResize zero y n)
     cases ht : x.tagS with
     | true =>
       have hx := (rsmall_st ht).mp h
-      have hnc : n ≤ c := by have := hx.le; have := hx.size_eq; omega
-      simp only [Small.resize, ht, if_true, hnc, RSmall]
-      have := (svec_sim c zero).resize s n _ _ L M (Or.inl hok) hx
-      simpa [boundedSpec, hnc, svecImpl] using this
+      by_cases hnc : n ≤ c
+      · simp only [Small.resize, ht, if_true, hnc, RSmall]
+        have := (svec_sim c zero).resize s n _ _ L M trivial hx
+        simpa [boundedSpec, hnc, svecImpl] using this
+      · obtain ⟨htag, hinv, hview⟩ := Small.resize_grow_dyn c zero x n L ht hx.len hx.le (by omega)
+        simp only [RSmall, htag, Bool.false_eq_true, if_false]
+        refine ⟨hinv, ?_⟩
+        rw [hview, hx.view, hx.size_eq]
+        have : ¬ n ≤ y.length := by have := hx.le; have := hx.size_eq; omega
+        simp [listResize, this]
     | false =>
       simp only [Small.resize, ht, Bool.false_eq_true, if_false, RSmall]
-      exact (vec_sim zero).resize s n _ _ L M hok ((rsmall_dy ht).mp h)
+      exact (vec_sim zero).resize s n _ _ L M trivial ((rsmall_dy ht).mp h)
   write := fun s i a x y L M _ h hi => by
     show RSmall c (Small.write x i a L).1 (y.set i a)
     cases ht : x.tagS with
